@@ -8,13 +8,15 @@ package cred
 // key-hash lookup map and the lookup maps of the running TCP/UDP servers describe the same set of users.
 // Every listed user's key hash is accepted and attributed to that user, every accepted key hash belongs to
 // a listed user, and the running servers accept exactly the cached set.
-//@ pure ulmSame(a ss2022.UserLookupMap, b ss2022.UserLookupMap) bool = forall h [16]byte :: has(a, h) == has(b, h) && (has(a, h) ==> a[h].Name == b[h].Name)
+//@ pure ulmSame(a ss2022.UserLookupMap, b ss2022.UserLookupMap) bool = forall h [16]byte :: {has(a, h)} {has(b, h)} has(a, h) == has(b, h) && (has(a, h) ==> a[h].Name == b[h].Name)
 
-//@ pure credCacheWF(s *ManagedServer) bool = !isnil(s.cachedCredMap) && !isnil(s.cachedUserLookupMap) && (forall u string :: has(s.cachedCredMap, u) ==> !isnil(s.cachedCredMap[u]) && has(s.cachedUserLookupMap, s.cachedCredMap[u].uPSKHash) && s.cachedUserLookupMap[s.cachedCredMap[u].uPSKHash].Name == u) && (forall h [16]byte :: has(s.cachedUserLookupMap, h) ==> has(s.cachedCredMap, s.cachedUserLookupMap[h].Name) && s.cachedCredMap[s.cachedUserLookupMap[h].Name].uPSKHash == h)
+//@ pure credUsersWF(s *ManagedServer) bool = !isnil(s.cachedCredMap) && !isnil(s.cachedUserLookupMap) && (forall u string :: {has(s.cachedCredMap, u)} has(s.cachedCredMap, u) ==> !isnil(s.cachedCredMap[u]) && has(s.cachedUserLookupMap, s.cachedCredMap[u].uPSKHash) && s.cachedUserLookupMap[s.cachedCredMap[u].uPSKHash].Name == u)
+
+//@ pure credHashesWF(s *ManagedServer) bool = forall h [16]byte :: {has(s.cachedUserLookupMap, h)} has(s.cachedUserLookupMap, h) ==> has(s.cachedCredMap, s.cachedUserLookupMap[h].Name) && s.cachedCredMap[s.cachedUserLookupMap[h].Name].uPSKHash == h
 
 //@ pure credProdWF(s *ManagedServer) bool = (!isnil(s.tcp) ==> !isnil(s.tcp.ulm) && ulmSame(s.tcp.ulm, s.cachedUserLookupMap)) && (!isnil(s.udp) ==> !isnil(s.udp.ulm) && ulmSame(s.udp.ulm, s.cachedUserLookupMap))
 
-//@ pure credWF(s *ManagedServer) bool = credCacheWF(s) && credProdWF(s)
+//@ pure credWF(s *ManagedServer) bool = credUsersWF(s) && credHashesWF(s) && credProdWF(s)
 
 //@ func (*ManagedServer).enqueueSave
 //@   noinline
@@ -22,20 +24,26 @@ package cred
 
 //@ func (*ManagedServer).AddCredential
 //@   requires !isnil(s) && credWF(s)
-//@   ensures credWF(s)
+//@   ensures credUsersWF(s)
+//@   ensures credHashesWF(s)
+//@   ensures credProdWF(s)
 //@   ensures isnil(result) ==> has(s.cachedCredMap, username) && !old(has(s.cachedCredMap, username)) && s.cachedCredMap[username].uPSKHash == ss2022.pskHashOf(old(string(uPSK)))
 //@   ensures forall u string :: u != username ==> has(s.cachedCredMap, u) == old(has(s.cachedCredMap, u))
 //@   ensures !isnil(result) ==> has(s.cachedCredMap, username) == old(has(s.cachedCredMap, username))
 
 //@ func (*ManagedServer).UpdateCredential
 //@   requires !isnil(s) && credWF(s)
-//@   ensures credWF(s)
+//@   ensures credUsersWF(s)
+//@   ensures credHashesWF(s)
+//@   ensures credProdWF(s)
 //@   ensures isnil(result) ==> has(s.cachedCredMap, username) && s.cachedCredMap[username].uPSKHash == ss2022.pskHashOf(old(string(uPSK)))
 //@   ensures forall u string :: has(s.cachedCredMap, u) == old(has(s.cachedCredMap, u))
 
 //@ func (*ManagedServer).DeleteCredential
 //@   requires !isnil(s) && credWF(s)
-//@   ensures credWF(s)
+//@   ensures credUsersWF(s)
+//@   ensures credHashesWF(s)
+//@   ensures credProdWF(s)
 //@   ensures isnil(result) ==> !has(s.cachedCredMap, username) && old(has(s.cachedCredMap, username))
 //@   ensures forall u string :: u != username ==> has(s.cachedCredMap, u) == old(has(s.cachedCredMap, u))
 
